@@ -272,6 +272,12 @@ func init() {
 				oracleFail("C03", "parse-failure", c, bad)
 				continue
 			}
+			// the decoded value tree is the document that was written (keys, order, scalar kinds and values)
+			// (documents with timestamps are left out: whether a plain scalar is a timestamp is yaml.v3's decision)
+			if want, got := sx.String(dvSexp(d, form == "json")), sx.String(r.caseSx); !hasTimestamp(d) && want != got {
+				oracleFail("C03", "decode-differs-from-document", c, fmt.Sprintf("the document denotes %s but decodes to %s", want, got))
+				continue
+			}
 			if r.hard {
 				oracleFail("C03", "hard-error-on-wellformed", c, "Parse rejected a well-formed document: "+r.err.Error())
 				continue
@@ -371,4 +377,24 @@ func init() {
 			fmt.Fprintf(out2(), "CASE\tC03nf\t%s\t%s\t1\n", sx.String(r.caseSx), sx.String(r.nfObs))
 		}
 	}
+}
+
+func hasTimestamp(d *dv) bool {
+	switch d.kind {
+	case 't':
+		return true
+	case 'l':
+		for _, e := range d.l {
+			if hasTimestamp(e) {
+				return true
+			}
+		}
+	case 'm':
+		for _, e := range d.m {
+			if hasTimestamp(e.v) {
+				return true
+			}
+		}
+	}
+	return false
 }
